@@ -141,6 +141,12 @@ def scenario(sseed, kind, mode):
         script0[R.randrange(len(script0))] = ("fatal", 0)
     elif special < 0.5:
         script0 = script0[: R.randint(0, len(script0))] + [("interrupt", 0)]
+        if R.random() < 0.4:
+            # the interrupt hits a RETRY attempt: the run before it failed (raised / NaN) and retries are allowed, so the
+            # interrupted trial's file still says INVALID while the oracle file lists it as ongoing
+            script0 = script0[:-1] + [R.choice([("raise", 0), ("nan", 0)]), ("interrupt", 0)]
+            over["max_retries_per_trial"] = R.randint(1, 2)
+            tags["interrupt-during-retry"] += 1
     doc = {"suite": "search", "seed": sseed, "kind": kind, "mode": mode}
     with tempdir("ktq") as d:
         log, pops = [], []
@@ -209,7 +215,9 @@ def scenario(sseed, kind, mode):
                 first = None
                 how2 = run_search(t2, log2)
                 first = next((e for e in log2 if e[0] == "start"), None)
-                ended_int = interrupted and any(e[0] == "end" and e[1] == interrupted[1] for e in log[log.index(interrupted):])
+                # position of the LAST start (a retry attempt's start entry equals the first attempt's: same id and values)
+                last_start = max((i_ for i_, e in enumerate(log) if e[0] == "start"), default=0)
+                ended_int = interrupted and any(e[0] == "end" and e[1] == interrupted[1] for e in log[last_start:])
                 if interrupted and not ended_int:
                     if first is None or (first[1], first[2]) != (interrupted[1], interrupted[2]):
                         raise Violation("C19", f"after the interrupt of trial {interrupted[1]} the resumed search starts with {first and first[:2]}", {"tag": "resume"})
